@@ -239,14 +239,17 @@ def _guard(chk):
     raises = [n for n in walk_no_nested(fn.node) if isinstance(n, ast.Raise)]
     good = None
     for r in raises:
+        from .common import cmp_forms
         for g in ff.guards(r):
-            t = g.test
-            if isinstance(t, ast.Compare) and isinstance(t.ops[0], (ast.NotEq, ast.Eq)):
+            # the raise fires when the two sample counts DIFFER, however the condition is spelt
+            for op, a, b in cmp_forms(g.test, g.polarity)[:1]:
+                if op != "NotEq":
+                    continue
                 srcs = []
-                for side in (t.left, t.comparators[0]):
+                for side in (a, b):
                     ps = ff.paths(side, spine_only=True)
                     srcs.append({p.atom.name for p in ps if p.atom.kind == "param" and p.has_op("attr", "shape") and p.has_op("subscript", "0")})
-                if srcs[0] and srcs[1] and srcs[0] != srcs[1] and ((isinstance(t.ops[0], ast.NotEq)) == g.polarity):
+                if srcs[0] and srcs[1] and srcs[0] != srcs[1]:
                     good = r
     chk.check(good is not None, "GUARD.samples.exists", fn, fn.node, construct="raise unless X.shape[0] == Y.shape[0]",
               why="fields with different sample counts are no longer refused before the cross product")
